@@ -12,6 +12,11 @@ miss=0
 for id in "$@"; do
 	p=$(python3 -c 'import json,sys; print(json.load(open(sys.argv[1]))["breaks_property"])' "$ROOT/seeded/$id/meta.json")
 	need=$(python3 -c 'import json,sys; print(json.load(open(sys.argv[1])).get("caught_from_tier","quick"))' "$ROOT/seeded/$id/meta.json")
+	km=$(python3 -c 'import json,sys; print(json.load(open(sys.argv[1])).get("known_miss",""))' "$ROOT/seeded/$id/meta.json")
+	if [ -n "$km" ]; then
+		echo "$id $p KNOWN-MISS  (recorded blind spot, not re-run: $km)"
+		continue
+	fi
 	if [ "$need" = thorough ] && [ "$tier" != thorough ]; then
 		echo "$id $p SKIPPED  (caught from the thorough tier only; see meta.json)"
 		continue
